@@ -90,11 +90,13 @@ def generate(repo: str) -> tuple[str, str]:
     if len(whiles) != 1:
         raise TranslateError("LoopOutputStep.run: main loop not found")
     w = whiles[0]
-    passigns = [s for s in w.body if isinstance(s, ast.Assign) and _ns(s.targets[0]) == "prefix"]
+    # the local holding the instance tag may be renamed: it is whatever is assigned `".".join(token.tag.split(".")[:-1])`
+    passigns = [s for s in w.body if isinstance(s, ast.Assign) and len(s.targets) == 1 and isinstance(s.targets[0], ast.Name)
+                and _ns(s.value) == "'.'.join(token.tag.split('.')[:-1])"]
     if len(passigns) != 1:
-        raise TranslateError("LoopOutputStep.run: `prefix = …` not found")
-    _prefix_of(passigns[0].value, "token.tag", "LoopOutputStep.run")
-    sizes = find_nodes(w, ast.Assign, lambda s: _ns(s.targets[0]) == "self.size_map[prefix]")
+        raise TranslateError("LoopOutputStep.run: `<prefix> = '.'.join(token.tag.split('.')[:-1])` not found")
+    pv = passigns[0].targets[0].id
+    sizes = find_nodes(w, ast.Assign, lambda s: _ns(s.targets[0]) == f"self.size_map[{pv}]")
     if len(sizes) != 1:
         raise TranslateError("LoopOutputStep.run: `self.size_map[prefix] = …` not found")
     size_of = ExprTranslator({"int(token.tag.split('.')[-1])": "last"}).tr(sizes[0].value)
@@ -103,11 +105,11 @@ def generate(repo: str) -> tuple[str, str]:
         raise TranslateError("LoopOutputStep.run: the emission `if <test>: output_port.put(… _process_output(prefix) …)` not found")
     test = emits[0].test
     getd = find_nodes(test, ast.Call, lambda c: _ns(c.func) == "self.size_map.get")
-    if len(getd) != 1 or len(getd[0].args) != 2 or _ns(getd[0].args[0]) != "prefix":
+    if len(getd) != 1 or len(getd[0].args) != 2 or _ns(getd[0].args[0]) != pv:
         raise TranslateError("LoopOutputStep.run: emission test does not read `self.size_map.get(prefix, <default>)`")
     default = ExprTranslator({}).tr(getd[0].args[1])
-    emit = ExprTranslator({"len(self.token_map.get(prefix, []))": "count", ast.unparse(getd[0]): "size"}).tr(test)
-    if "_process_output(prefix)" not in _ns(emits[0]):
+    emit = ExprTranslator({f"len(self.token_map.get({pv}, []))": "count", ast.unparse(getd[0]): "size"}).tr(test)
+    if f"_process_output({pv})" not in _ns(emits[0]):
         raise TranslateError("LoopOutputStep.run: emission does not call _process_output(prefix)")
     # the emission test must come after the three-way dispatch, and the exit test after the emission
     exits = [s for s in w.body if isinstance(s, ast.If) and isinstance(s.body[0], ast.Break)]
